@@ -28,7 +28,7 @@ CLASSES = [
 LOGIC = Logic(
     funcs={"TaskOf": (["TaskIdentifier"], "TaskType"), "ShouldRun": (["TaskIdentifier"], "bool"), "Rk": (["TaskIdentifier"], "int"),
            "OutPath": (["TaskIdentifier"], "Opt[Val[Path]]")},
-    globals={"g_sr_called": "Set[TaskIdentifier]#srcalled"},
+    globals={"g_sr_called": "Set[TaskIdentifier]#srcalled", "g_dop_pos": "Arr[int,int]", "g_dop_src": "Arr[int,int]"},
     macros={
         "lid(l)": "l.task._identifier",
         "finished(t)": "(t in visited) and visited[t].g_ph >= 2",
@@ -160,7 +160,7 @@ CONTRACTS = [
              trusted_reason="dynamic dispatch of get_output_path: only Group has no output directory (verified per class in contracts/run_types.py); within one planning pass the answer for "
                             "a task is stable (memoised selected version): bounded check C07.planner.deps_snapshot"),
     Contract("task_types/base.py::TaskType.get_working_path", params={"ctx": "Context"}, returns="Val[Path]", extern=True, trusted_reason="project_root / identifier.path"),
-    Contract("task_types/base.py::TaskType.get_deps_output_paths", params={"ctx": "Context"}, returns="Seq[Val[Path]]", extern=True,
+    Contract("ext::TaskType.get_deps_output_paths(planner)", params={"ctx": "Context"}, returns="Seq[Val[Path]]",
              modifies=["RunExperiment._did_retrieve_version", "RunExperiment._most_relevant_version"], raises={"RuntimeError": []},
              trusted_reason="output directories of the direct dependencies (snapshot consistency: bounded check C07.planner.deps_snapshot)"),
     Contract("ext::RunTaskExecutable", returns="RunTaskExecutable", fresh_result=True,
@@ -179,12 +179,42 @@ CONTRACTS = [
              params={"initial_state": "Enum[OperationState]", "identifier": "TaskIdentifier", "task": "TaskType"},
              ensures=OPCTOR_ENS + ["not result.parallelizable"], trusted_reason="NoOp.__init__"),
 
+    # ------------------------------------------------------------------ task_types/base.py: what COND_DEPS is built from (C07)
+    Contract("task_types/base.py::TaskType.get_deps_output_paths", params={"ctx": "Context"}, returns="List[Val[Path]]#dop", props=["C07"], fresh_result=True,
+             prefer_ext={"TaskIndex.get_task": "TaskIndex.get_task(planner)", "TaskType.get_output_path": "TaskType.get_output_path(planner)",
+                         "RunExperiment.get_output_path": "TaskType.get_output_path(planner)"},
+             locals={"deps_output_paths": "List[Val[Path]]#dop"},
+             requires=[C("dependencies_are_loaded", "self._deps == Deps(self._identifier) and forall(j, 'int', implies(0 <= j and j < seq_len(self._deps),"
+                                                    " Reach(select(self._deps, j)) and TaskOf(select(self._deps, j))._identifier == select(self._deps, j)))")],
+             modifies=["$alloc", "RunExperiment._did_retrieve_version", "RunExperiment._most_relevant_version", "g_dop_pos", "g_dop_src"],
+             ensures=[C("every_dependency_that_has_an_output_directory_is_listed",
+                        "forall(m, 'int', implies(0 <= m and m < seq_len(self._deps) and OutPath(select(self._deps, m)) is not None,"
+                        " 0 <= select(g_dop_pos, m) and select(g_dop_pos, m) < seq_len(result) and select(result, select(g_dop_pos, m)) == some(OutPath(select(self._deps, m)))))", "C07"),
+                      C("nothing_else_is_listed_and_the_declared_order_is_kept",
+                        "forall(q, 'int', implies(0 <= q and q < seq_len(result), 0 <= select(g_dop_src, q) and select(g_dop_src, q) < seq_len(self._deps)"
+                        " and OutPath(select(self._deps, select(g_dop_src, q))) is not None and select(result, q) == some(OutPath(select(self._deps, select(g_dop_src, q))))))"
+                        " and forall(q, 'int', forall(r, 'int', implies(0 <= q and q < r and r < seq_len(result), select(g_dop_src, q) < select(g_dop_src, r))))", "C07")],
+             raises={"RuntimeError": []},
+             loops={0: Loop(header="for dep_identifier in self.deps:", index="c",
+                            modifies=["list@deps_output_paths", "RunExperiment._did_retrieve_version", "RunExperiment._most_relevant_version", "g_dop_pos", "g_dop_src"],
+                            invariant=[
+                                C("listed_so_far", "forall(m, 'int', implies(0 <= m and m < c and OutPath(select(self._deps, m)) is not None,"
+                                                   " 0 <= select(g_dop_pos, m) and select(g_dop_pos, m) < seq_len(deps_output_paths) and select(deps_output_paths, select(g_dop_pos, m)) == some(OutPath(select(self._deps, m)))))"),
+                                C("only_dependencies_in_order", "forall(q, 'int', implies(0 <= q and q < seq_len(deps_output_paths), 0 <= select(g_dop_src, q) and select(g_dop_src, q) < c"
+                                                                " and OutPath(select(self._deps, select(g_dop_src, q))) is not None and select(deps_output_paths, q) == some(OutPath(select(self._deps, select(g_dop_src, q))))))"
+                                                                " and forall(q, 'int', forall(r, 'int', implies(0 <= q and q < r and r < seq_len(deps_output_paths), select(g_dop_src, q) < select(g_dop_src, r))))"),
+                            ])},
+             ghost=[Ghost("g_dop_pos = store(g_dop_pos, c, len(deps_output_paths))\ng_dop_src = store(g_dop_src, len(deps_output_paths), c)",
+                          before="deps_output_paths.append(path)")]),
+
     # ------------------------------------------------------------------ create_plan_for
     Contract(F + "::ExecutionPlanner.create_plan_for", params={"task_id": "TaskIdentifier", "run_again": "bool", "at_least_commit": "Opt[str]"},
              returns="ExecutionPlan", props=["C02", "C01"], fresh_result=True,
              prefer_ext={"TaskIndex.get_task": "TaskIndex.get_task(planner)", "TaskType.should_run": "TaskType.should_run(planner)",
                          "RunExperiment.create_new_version": "RunExperiment.create_new_version(planner)",
-                         "TaskType.get_output_path": "TaskType.get_output_path(planner)", "RunExperiment.get_output_path": "TaskType.get_output_path(planner)"},
+                         "TaskType.get_output_path": "TaskType.get_output_path(planner)", "RunExperiment.get_output_path": "TaskType.get_output_path(planner)",
+                         "TaskType.get_deps_output_paths": "TaskType.get_deps_output_paths(planner)", "RunExperiment.get_deps_output_paths": "TaskType.get_deps_output_paths(planner)",
+                         "RunCommand.get_deps_output_paths": "TaskType.get_deps_output_paths(planner)", "_RunSubprocess.get_deps_output_paths": "TaskType.get_deps_output_paths(planner)"},
              locals={"all_ops": "List[Operation]#allops", "initial_operations": "List[Operation]#initops", "cached_tasks": "List[TaskType]#cached",
                      "stack": "List[LoweringTask]#pstk", "visited": "Dict[TaskIdentifier,LoweringTask]#pvis", "new_op": "Operation",
                      "dep_output_paths": "List[Tuple[TaskIdentifier,Val[Path]]]#cdops"},
